@@ -26,19 +26,19 @@ CHECKS = {
    text="Every history up to depth 5 (vector models 4; thorough 6/5) over the operation menus of six local-metric models (incl. drop during unwinding, negative observations, clone, remove) is replayed on fresh real objects and compared with a ledger after every step; a second BFS merges equal ledger states and reaches depth 7.",
    note="<=3 live local handles, 2 keys, fixed update amounts (incl. a negative observation)", ref="6 C12"),
  "C01": dict(engine="vsched", technique="stateless exhaustive exploration of thread interleavings (sleep sets, unbounded) of the real code under a controlled scheduler + Wing-Gong linearizability check",
-   text="For 4 counter flavours, all unordered pairs of <=2-operation programs and all triples of 1-operation programs over {inc_by, get, reset, local flush, collect, local clone+flush,...} are run under the vsched scheduler on every interleaving of their atomic/lock operations (sleep-set reduced, no preemption bound); plus contention drivers (one update against a run of five by another thread that then reads; three updaters inside the cell at once); each execution's call/return history incl. quiescent reads must be linearizable w.r.t. a sequential counter.",
+   text="For 4 counter flavours, all unordered pairs of <=2-operation programs and all triples of 1-operation programs over {inc_by, get, reset, local flush, collect, local clone+flush,...} are run under the vsched scheduler on every interleaving of their atomic/lock operations (sleep-set reduced, no preemption bound); plus contention drivers (one update against a run of five by another thread that then reads; three updaters inside the cell at once); the small drivers are also run with one deviation per execution: a compare_exchange_weak that fails spuriously once, or keeps failing for up to 64 rounds of its retry loop (storm); each execution's call/return history incl. quiescent reads must be linearizable w.r.t. a sequential counter.",
    note="sequentially consistent interleavings (exact for a single atomic cell); <=3 threads, <=2 ops per thread", ref="6 C01"),
  "C11": dict(engine="vsched", technique="stateless exhaustive exploration of thread interleavings (sleep sets, unbounded) of the real code under a controlled scheduler + Wing-Gong linearizability check",
-   text="Same engine as C01 over 4 gauge flavours and the alphabet {add, sub, inc, dec, set, get, collect}: every interleaving of all program pairs (<=2 ops) and 1-op triples; plus contention drivers (an update against a run ending in set/get; exactly opposite add/sub amounts from four threads); histories must be linearizable w.r.t. a sequential gauge; integer gauges are additionally driven next to i64::MAX/MIN with exact wrapping arithmetic.",
+   text="Same engine as C01 over 4 gauge flavours and the alphabet {add, sub, inc, dec, set, get, collect}: every interleaving of all program pairs (<=2 ops) and 1-op triples; plus contention drivers (an update against a run ending in set/get; exactly opposite add/sub amounts from four threads); one spurious weak-CAS failure or one storm of up to 64 of them per execution in the small drivers; histories must be linearizable w.r.t. a sequential gauge; integer gauges are additionally driven next to i64::MAX/MIN with exact wrapping arithmetic.",
    note="sequentially consistent interleavings (exact for a single atomic cell); <=3 threads, <=2 ops per thread", ref="6 C11"),
  "C18": dict(engine="statespace", technique="exhaustive enumeration of operation histories (stateright BFS) on real timers with a virtual clock vs. exactly-once reference",
    text="Every history up to depth 5 (thorough 6; merged-state BFS to depth 7/9) of start/observe_duration/stop_and_record/stop_and_discard/drop/drop-during-unwinding/drop-on-other-thread/observe_closure_duration (durations below, on and above the largest bucket bound, pending samples in the parent local histogram) over <=3 timers of a shared and of a local histogram, interleaved with forward and backward steps of a virtual clock, is replayed on the real code; after every step the histogram must have grown by exactly one observation of max(now-start,0) or by none.",
    note="clock is the verif time seam; coarse clock (nightly feature) not built", ref="6 C18"),
  "C02": dict(engine="vsched", technique="stateless exhaustive exploration of thread interleavings of the real histogram under a controlled scheduler (sleep sets unbounded / preemption-bounded) + snapshot-is-a-cut oracle + vector-clock happens-before audit of the hand-off",
-   text="Observer/batcher/collector drivers (2-4 threads, 1-3 collections, direct / HistogramVec / Registry::gather collect paths, three start states) are run on every interleaving of their atomic, lock and call-boundary steps (Mode U unbounded with sleep sets where it completes, else all schedules with <=2 (thorough 3) preemptions); every snapshot must decode (distinct power-of-two observations) to one set S consistent in count/sum/buckets, bounded by real time and prefix-closed per thread. Every execution is additionally audited with vector clocks built from the orderings the code passes: each draining access to a data cell must be happens-before-ordered with every other thread's access to it through the sync cells alone.",
+   text="Observer/batcher/collector drivers (2-4 threads, 1-3 collections, direct / HistogramVec / Registry::gather collect paths, three start states) are run on every interleaving of their atomic, lock and call-boundary steps (Mode U unbounded with sleep sets where it completes, else all schedules with <=2 (thorough 3) preemptions); every snapshot must decode (distinct power-of-two observations, positive and, in the signed drivers, negative) to one set S consistent in count/sum/buckets, bounded by real time and prefix-closed per thread. Every execution is additionally audited with vector clocks built from the orderings the code passes: each draining access to a data cell must be happens-before-ordered with every other thread's access to it through the sync cells alone.",
    note="explored executions are SC interleavings; memory-model coverage is the hb audit of explored executions, not an enumeration of weak executions; Mode B drivers hold up to the stated preemption bound", ref="6 C02"),
  "C03": dict(engine="vsched", technique="stateless exhaustive exploration of thread interleavings of the real histogram under a controlled scheduler + conservation/growth/batch-atomicity/termination oracles",
-   text="Drivers with >=3 collections, 1-2 collector threads, direct observers, local-batch flushers and get_sample_* readers are run on every interleaving (Mode U / preemption bound as C02): snapshots ordered in real time grow, a batch is in a snapshot entirely or not at all, the quiescent snapshot and get_sample_count/sum describe exactly all observations, no deadlock/livelock (also in the quiescent reads, which run under the scheduler), and a collector that spins does so only while an observe/flush call is in flight; NaN-observation drivers are judged by counts and termination.",
+   text="Drivers with >=3 collections, 1-2 collector threads, direct observers, local-batch flushers and get_sample_* readers are run on every interleaving (Mode U / preemption bound as C02): snapshots ordered in real time grow, a batch is in a snapshot entirely or not at all, the quiescent snapshot and get_sample_count/sum describe exactly all observations, no deadlock/livelock (also in the quiescent reads, which run under the scheduler), and a collector that spins does so only while an observe/flush call is in flight; NaN-observation drivers are judged by counts and termination; signed-observation drivers (negative and zero-crossing sums through drain, carry-over and local flush) are decoded by subset enumeration.",
    note="SC interleavings; <=4 threads; Mode B drivers hold up to the stated preemption bound", ref="6 C03"),
  "C10": dict(engine="vsched+statespace", technique="stateless exhaustive exploration of thread interleavings of the real vector (sleep sets / preemption bound) + Wing-Gong linearizability vs. map-of-children spec; exhaustive enumeration of sequential histories (stateright BFS)",
    text="(E1) all program pairs (<=2 ops, quick: total length <=3) all triples of 1-call programs and five 3-thread drivers over {get-or-create+update, remove, reset, collect, update through a kept handle} on 3 vector flavours (list and map request forms mixed) from 3 start states, on every interleaving of lock/atomic/call-boundary steps; histories incl. a quiescent collect must be linearizable w.r.t. a map key->child, child values decoded per child with interval semantics and a membership that stands still between a collection's snapshot instant and every update it shows; large-vector drivers (3..64 pre-existing children around powers of two, each to be shown exactly once with exact update accounting) and a churn driver (one collect against create/remove/create/update-old-child). (E2) every sequential history up to depth 5 (thorough 6) replayed against the reference after each step.",
